@@ -179,7 +179,7 @@ def scn_lex():
         "1", "1K", "1k", "1M", "1g", "RAW:1T", "01",
         '""', '"a\\"b"', '"a\\\\"', '"a\nb"', '"\xe9"', 'RAW:"a',
         "text:\nabc\n.", "TEXT:\nabc\n.", "text:\n..x\n.", "text: #c\nabc\n.", "RAW:text:\nabc", "RAW:text:x\nabc\n.",
-        "RAW:# c\n", "RAW:/* c */", "RAW:\x0c", "RAW:\x0b", "RAW:\t", "RAW:\r", "RAW:/* unterminated", "RAW:&", "RAW:\xe9", "RAW::", "RAW:a-b",
+        "RAW:# c\n", "RAW:/* c */", "RAW:\x0c", "RAW:\x0b", "RAW:\t", "RAW:\r", "RAW:\ufeff", "RAW:/* unterminated", "RAW:&", "RAW:\xe9", "RAW::", "RAW:a-b",
     ]
     sigma = ["redirect", "keep", "if", "size", ":over", "true", "STR", ";", "{", "}"] + raws
     return dict(name="lex", prefix=(), sigma=sigma)
